@@ -72,8 +72,6 @@ static uint32_t v4of(const Ip::Address &a)
     return ntohl(ia.s_addr);
 }
 
-static bool onlyLongLastComponent = false;   // set by c40_known_long_last_component only
-static bool onlyHugeProtocol = false;        // set by c40_known_huge_protocol only
 
 // ---------------------------------------------------------------- PORT / PASV: "h1,h2,h3,h4,p1,p2"
 static void checkIpPort(const char *text, const unsigned len, const bool force, const int sanity)
@@ -102,12 +100,9 @@ static void checkIpPort(const char *text, const unsigned len, const bool force, 
 
     // (The three classes reported earlier - forceIp skipping the h1..h4 range check, scanf("%d") wrapping huge numbers, EPRT
     // ports 0 / missing / > 65535 - were repaired in Squid and are part of what is checked here.)
-    // KNOWN FINDING C40-pasv-long-last-component: ParseIpPort now reads every number with scanf("%4d"); a number written with
-    // more than 4 characters (sign + digits) ends the conversion early, which rejects the string for h1..p1 (the next
-    // character is not a comma) but NOT for the last component, after which nothing is checked: "10,0,0,1,4,02559" is read
-    // as p2 = 255 (2559 is out of range) and "10,0,0,1,4,+0255" as p2 = 25. This class is examined by its own entry
-    // (c40_known_long_last_component, listed in known_findings.json); every other entry excludes exactly this class.
-    vf_assume((six && c[5].chars > 4) == onlyLongLastComponent);
+    // (A last component written with more than 4 characters used to be cut short by the %4d field width and accepted
+    // ("10,0,0,1,4,02559" as p2 = 255); repaired in /repo by the follow-up 'fix: FTP address parsers: last PASV component cut
+    // short ...' commit. The family c40_long_last_component keeps that class in the check.)
 
     char *s = exactCopy(text, len);
     Ip::Address addr;
@@ -235,10 +230,8 @@ static void checkProtoIpPort(const char *text, const unsigned len, const int san
         quad = quad && p == ipEnd;
     }
 
-    // KNOWN FINDING C40-eprt-huge-protocol: the protocol number is read with strtol() into an int, so a number that does not
-    // fit an int wraps: "|4294967297|10.0.0.1|8080|" is taken for protocol 1, "|8589934594|::1|8080|" for protocol 2. This
-    // class is examined by its own entry (c40_known_huge_protocol); every other entry excludes exactly this class.
-    vf_assume((proto.present && (proto.value > 2147483647 || proto.value < -(__int128)2147483648LL)) == onlyHugeProtocol);
+    // (A protocol number that does not fit an int used to wrap to 1 or 2; repaired in /repo by the same follow-up commit.
+    // The family c40_huge_protocol keeps that class in the check.)
 
     char *s = exactCopy(text, len);
     Ip::Address addr;
@@ -450,16 +443,14 @@ extern "C" void c40_list_short(void)
     listLine(text, len, vf_concretize(vf_range(0, 1, "skip_whitespace")), nlst);
 }
 
-// ---------------------------------------------------------------- KNOWN FINDINGS (known_findings.json): strict assertions, class only
-extern "C" void c40_known_long_last_component(void)
+// ---------------------------------------------------------------- classes that were findings and are repaired now: kept as ordinary families
+extern "C" void c40_long_last_component(void)
 {
-    onlyLongLastComponent = true;
     static const char *const t[] = {"10,0,0,1,4,025\x01\x01", "10,0,0,1,4,+02\x01\x01", "10,0,0,1,4,-00\x01\x01"};
     ipPortFamily(t, sizeof(t) / sizeof(*t));
 }
-extern "C" void c40_known_huge_protocol(void)
+extern "C" void c40_huge_protocol(void)
 {
-    onlyHugeProtocol = true;
     static const char *const t[] = {"|429496729\x01|10.0.0.1|8080|", "|858993459\x01|::1|8080|", "|-429496729\x01|10.0.0.1|8080|"};
     eprtFamily(t, sizeof(t) / sizeof(*t), true);
 }
